@@ -24,6 +24,22 @@ CHECKS = {
         "level_note": "Expected alert classes are the harness's reading of draft-ietf-tls-esni 5.1/7/7.1 as listed in the property; multi-fault cases accept any injected fault's class.",
         "assumptions": ["malformed ech_outer_extensions encodings map to decode_error", "empty reference lists and trailing bytes are not generated (unspecified)"],
     },
+    "C05": {
+        "stages": [rapid_stage("C05", 1500, 30000)],
+        "design_ref": "DESIGN.md 4 C05",
+        "technique": "property-based testing (rapid): round trip against the input bytes, differential against crypto/tls ClientHelloInfo",
+        "level_text": "Randomised exploration of valid ClientHellos without acceptable ECH (7 kinds x 3 key-set shapes x sizes x following record streams); oracle compares the forwarded bytes with the bytes sent (not with the library's marshaller) and ServerName/ALPN with two independent decoders.",
+        "level_note": "crypto/tls refuses some syntactically valid hellos (counted as tls_oracle_refused); those only get the harness-decoder oracle.",
+        "assumptions": ["hellos with duplicate extension types, several SNI names or trailing bytes are not generated (RFC-invalid)"],
+    },
+    "C09": {
+        "stages": [rapid_stage("C09", 800, 10000)],
+        "design_ref": "DESIGN.md 4 C09",
+        "technique": "property-based testing (rapid): metamorphic relation over key lists (outcome with list == outcome with [T] or [])",
+        "level_text": "Randomised exploration of key-list shapes (same-id collisions, positions of the target key, absence, permutations) for first and retried hellos; metamorphic oracle needs no model of ECH.",
+        "level_note": "Outcome equality covers error class, acceptance, forwarded records, reported SNI/ALPN and alert bytes.",
+        "assumptions": ["crypto/hpke as sealing reference"],
+    },
     "C03": {
         "stages": [rapid_stage("C03", 1500, 20000)],
         "design_ref": "DESIGN.md 4 C03",
